@@ -564,3 +564,84 @@ func genGarbage(r *rand.Rand, id string, size int, total int) []string {
 	g.add("final12")
 	return g.lines
 }
+
+// genTransport: membership snapshot sequences for pubsubcoreapi, self/remote message streams,
+// pairwise pubsub channels, direct-channel frames around every boundary.
+func genTransport(r *rand.Rand, id string, size int, total int) []string {
+	g := &Gen{r: r}
+	g.add("scn %s kind=none acl=* peers=", id)
+	snapshot := func() string {
+		n := g.pick(5)
+		perm := g.r.Perm(6)
+		var xs []string
+		for i := 0; i < n; i++ {
+			xs = append(xs, fmt.Sprint(1+perm[i]))
+		}
+		if len(xs) == 0 {
+			return "-"
+		}
+		return strings.Join(xs, ",")
+	}
+	for k := 0; k < 2+g.pick(3); k++ {
+		var snaps []string
+		for i := 0; i < 1+g.pick(size); i++ {
+			snaps = append(snaps, snapshot())
+		}
+		g.add("tpeers %s", strings.Join(snaps, ";"))
+	}
+	for k := 0; k < 2; k++ {
+		var ms []string
+		for i := 0; i < g.pick(8); i++ {
+			from := []int{0, 0, 1, 2, 3}[g.pick(5)]
+			ms = append(ms, fmt.Sprintf("%d:%s", from, hx(g.value())))
+		}
+		if len(ms) == 0 {
+			g.add("tmsgs -")
+		} else {
+			g.add("tmsgs %s", strings.Join(ms, ","))
+		}
+	}
+	// frames: boundary lengths, honest sends, truncations, garbage
+	lens := []string{"0", "1", "127", "128", "300", "4194303:16", "4194304:8", "4194305:8", "2147483648", "4294967296",
+		"9223372036854775807", "9223372036854775808", "9223372036854775809", "18446744073709551615", "16384:16384", "5:3", "5:5", "5:9"}
+	for i := 0; i < 4+g.pick(6); i++ {
+		switch g.pick(4) {
+		case 0:
+			b := make([]byte, g.pick(40))
+			g.r.Read(b)
+			g.add("tframe send:%s", hx(b))
+		case 1:
+			b := make([]byte, g.pick(12))
+			g.r.Read(b)
+			g.add("tframe %s", hx(b))
+		default:
+			g.add("tframe len:%s", lens[g.pick(len(lens))])
+		}
+	}
+	g.add("tframe send:%s", hx([]byte("after")))
+	return g.lines
+}
+
+// genOneOnOne: the pairwise pubsub channel (slow: Connect polls once per second) — a few per run.
+func genOneOnOne(r *rand.Rand, id string, size int, total int) []string {
+	g := &Gen{r: r}
+	g.add("scn %s kind=none acl=* peers=", id)
+	a := 1 + g.pick(5)
+	b := 1 + g.pick(5)
+	for b == a {
+		b = 1 + g.pick(5)
+	}
+	pay := func() string {
+		n := g.pick(4)
+		var xs []string
+		for i := 0; i < n; i++ {
+			xs = append(xs, "x"+hx(g.value()))
+		}
+		if len(xs) == 0 {
+			return "-"
+		}
+		return strings.Join(xs, ",")
+	}
+	g.add("tone %d %d %s %s", a, b, pay(), pay())
+	return g.lines
+}
